@@ -205,6 +205,8 @@ where
 
     fn initialize_vring(&self, vring: &T::Vring, index: u8) -> VhostUserResult<()> {
         vring.set_queue_ready(true);
+        #[cfg(feature = "verif-hooks")]
+        vhost::verif::hold("c.state", index as u64);
         self.update_vring_registration(vring, index)
     }
 
@@ -241,6 +243,8 @@ where
                 }
             }
         }
+        #[cfg(feature = "verif-hooks")]
+        vhost::verif::hold("c.epoll", index as u64);
         Ok(())
     }
 
@@ -278,6 +282,8 @@ where
         // Disable all vrings
         for (index, vring) in self.vrings.iter().enumerate() {
             vring.set_enabled(false);
+            #[cfg(feature = "verif-hooks")]
+            vhost::verif::hold("c.state", index as u64);
             self.update_vring_registration(vring, index as u8)?;
         }
 
@@ -311,6 +317,8 @@ where
         if self.acked_features & VhostUserVirtioFeatures::PROTOCOL_FEATURES.bits() == 0 {
             for (index, vring) in self.vrings.iter().enumerate() {
                 vring.set_enabled(true);
+                #[cfg(feature = "verif-hooks")]
+                vhost::verif::hold("c.state", index as u64);
                 self.update_vring_registration(vring, index as u8)?;
             }
         }
@@ -453,6 +461,8 @@ where
         // VHOST_USER_SET_VRING_KICK, and stop ring upon receiving
         // VHOST_USER_GET_VRING_BASE.
         vring.set_queue_ready(false);
+        #[cfg(feature = "verif-hooks")]
+        vhost::verif::hold("c.state", index as u64);
         self.update_vring_registration(vring, index as u8)?;
 
         let next_avail = vring.queue_next_avail();
@@ -539,6 +549,8 @@ where
         // or after it has been disabled by VHOST_USER_SET_VRING_ENABLE
         // with parameter 0.
         vring.set_enabled(enable);
+        #[cfg(feature = "verif-hooks")]
+        vhost::verif::hold("c.state", index as u64);
         self.update_vring_registration(vring, index as u8)?;
 
         Ok(())
